@@ -345,6 +345,8 @@ def _packed_like(t, rows, a):
 # copies BETWEEN packed tensors: the same shape, or a single row broadcast to every row of the destination
 INPLACE_OPS["copy_packed_same"] = lambda t, a, b: t.copy_(_packed_like(t, t.shape[0], a))
 INPLACE_OPS["copy_packed_row"] = lambda t, a, b: t.copy_(_packed_like(t, 1, a))
+# an operation on other tensors whose result is written INTO the packed tensor (out=)
+INPLACE_OPS["out_arg"] = lambda t, a, b: torch.bitwise_and(_plain(t).clone(), a % 4, out=t)
 OPS.update(INPLACE_OPS)
 OPNAMES = sorted(OPS)
 
